@@ -90,7 +90,7 @@ func (v *Verifier) structural(cfg PropConfig, sc StructuralCheck) []StructResult
 		for _, it := range con.Assigns {
 			switch {
 			case it.TypeT != "":
-				for _, hk := range fv.readKeys(fv.qualifyTypeText(it.TypeT, n.Obj().Pkg())+"::"+it.Field, n.Obj().Pkg()) {
+				for _, hk := range fv.readKeys(qualifiedKeySpec(fv, it, n.Obj().Pkg()), n.Obj().Pkg()) {
 					allowed[hk.Key] = true
 				}
 			default:
@@ -126,6 +126,71 @@ func (v *Verifier) structural(cfg PropConfig, sc StructuralCheck) []StructResult
 		sort.Strings(bad)
 		return []StructResult{{Name: name, Kind: "frame", Text: fmt.Sprintf("every %s value created in the module writes only what its callback contract assigns", a.Type),
 			Detail: fmt.Sprintf("%d function values checked; %s", nf, strings.Join(uniq(bad), "; ")), OK: len(bad) == 0}}
+	case "implementers_under_contract":
+		// every (non-test) implementer of the interface method in the module is verified against the
+		// interface method contract: its method carries `implements <contract>` and is listed among the
+		// property's functions under contract
+		var a struct {
+			Iface    string `json:"iface"`
+			Method   string `json:"method"`
+			Contract string `json:"contract"`
+		}
+		json.Unmarshal(sc.Args, &a)
+		t, err := v.ResolveType(a.Iface, nil)
+		if err != nil {
+			engineErr("structural %s: %v", sc.Name, err)
+		}
+		listed := map[string]bool{}
+		for _, f := range cfg.Functions {
+			listed[modulePath+"/"+f] = true
+		}
+		var bad []string
+		n := 0
+		for _, it := range v.Implementers(t) {
+			if isTestType(it) {
+				continue
+			}
+			ms := v.prog.MethodSets.MethodSet(it)
+			var sel *types.Selection
+			for i := 0; i < ms.Len(); i++ {
+				if ms.At(i).Obj().Name() == a.Method {
+					sel = ms.At(i)
+				}
+			}
+			if sel == nil {
+				continue
+			}
+			fn := v.prog.MethodValue(sel)
+			if fn == nil {
+				continue
+			}
+			if fn.Synthetic != "" {
+				// promoted method: the declaring method is what counts
+				if obj, ok := sel.Obj().(*types.Func); ok {
+					if d := v.prog.FuncValue(obj); d != nil {
+						fn = d
+					}
+				}
+			}
+			n++
+			con := v.contracts[fn]
+			ok := false
+			if con != nil {
+				for _, im := range con.Implements {
+					if im == a.Contract || modulePath+"/"+im == a.Contract || im == modulePath+"/"+a.Contract {
+						ok = true
+					}
+				}
+			}
+			if !ok {
+				bad = append(bad, shortKey(fn)+": no contract that implements "+a.Contract)
+			} else if !listed[funcKey(fn)] {
+				bad = append(bad, shortKey(fn)+": not among the property's functions under contract")
+			}
+		}
+		sort.Strings(bad)
+		return []StructResult{{Name: name, Kind: "refine", Text: fmt.Sprintf("every implementer of %s.%s in the module is verified against the interface contract %s", a.Iface, a.Method, a.Contract),
+			Detail: fmt.Sprintf("%d implementers; %s", n, strings.Join(uniq(bad), "; ")), OK: len(bad) == 0 && n > 0}}
 	case "callers_subset":
 		var a struct {
 			Callee  string   `json:"callee"`
